@@ -256,7 +256,7 @@ def finish(ctx, level_note_assumptions=None):
             json.dump({'property': prop, 'step': v['step'], 'args': v.get('args', []), 'case': v['case'], 'sig': v['sig'], 'detail': v['detail'],
                        'tier': ctx.tier, 'how': 'bin/check %s --replay %s' % (prop, path)}, open(path, 'w'), indent=1)
             print('VIOLATION property=%s replay=%s' % (prop, path))
-            print('  sig=%s case=[%s] %s' % (v['sig'], v['case'], v['detail'][:300]))
+            print('  sig=%s case=[%s] %s' % (v['sig'], v['case'][:400], v['detail'][:300]))
         rc = 1
     write_evidence(ctx, violations=len(unknown), extra={'known_findings_matched': [k for k in known_hit], 'fixed_entries': [f['commit'] for f in fixed]})
     return rc
